@@ -1472,7 +1472,16 @@ class ArrayToBlocks(Linop):
         return BlocksToArray(self.ishape, self.blk_shape, self.blk_strides)
 
     def _normal_linop(self):
-        return Identity(self.ishape)
+        D = len(self.blk_shape)
+        if all(
+            s == b and i % b == 0
+            for i, b, s in zip(
+                self.ishape[-D:], self.blk_shape, self.blk_strides
+            )
+        ):
+            return Identity(self.ishape)
+
+        return super()._normal_linop()
 
 
 class BlocksToArray(Linop):
@@ -1511,7 +1520,10 @@ class BlocksToArray(Linop):
         return ArrayToBlocks(self.oshape, self.blk_shape, self.blk_strides)
 
     def _normal_linop(self):
-        return Identity(self.ishape)
+        if all(s >= b for b, s in zip(self.blk_shape, self.blk_strides)):
+            return Identity(self.ishape)
+
+        return super()._normal_linop()
 
 
 def Gradient(ishape, axes=None):
